@@ -361,6 +361,7 @@ def r3_header_table(rep, src):
         cuts = sorted(set(cuts))
         return (cuts[0][0], cuts[0][1], numeric) if len(cuts) == 1 else None
     per_path = []
+    name_paths = []
     window_ok = True
     for p_ in ps:
         roles = {}
@@ -393,6 +394,7 @@ def r3_header_table(rep, src):
                     c = next(c for c in cs if c is not None)
                     roles['magic'] = (c[0], c[1], False)
         per_path.append(roles)
+        name_paths.append(([(Fwd().visit(core_clone(t_)), pol) for t_, pol in p_.conds], stores.get('__name')))
         # data window: offset = tell(), end = offset + size, cur = offset, all over the same position
         off, end, cur, size = (stores.get(k) for k in ('__offset', '__end', '__cur', '__size'))
         tell = '%s.tell()' % fpn
@@ -433,6 +435,7 @@ def r3_header_table(rep, src):
         else:
             rep.fail('C06.R3', M + ':ArMember.' + pub, 'property', '%s does not expose self.%s' % (pub, priv))
     _ = cls
+    return dict(func=f, name_paths=name_paths, cut_of=cut_of)
 
 
 def mod_fold(mod, e):
@@ -840,31 +843,30 @@ def r9_readlines_hint(rep, src):
         rep.ok('C06.R9', f.site, 'readlines(hint)', '%d hints: all lines for hint <= 0 / None, else up to the line that reaches the hint' % n)
 
 
-def r10_member_names(rep, src):
+def r10_member_names(rep, src, hdr):
     """the name of a member is what the 16-byte name field holds: up to the slash that ends it (GNU ar), else without the blank padding
-    (BSD ar).  The expression that computes it is evaluated (sa.heap, symbolic text) on both layouts with names that begin or end
-    with a blank: the result is the name, blanks included."""
+    (BSD ar).  On the paths of from_file (locals substituted away, C06.R3) the expression stored as the name and the conditions it
+    is stored under are evaluated (sa.heap, symbolic text) with the cut [0:16] of the header replaced by a symbolic name field, on
+    both layouts and with names that begin or end with a blank: the result is the name, blanks included."""
     from .. import heap as H, symstr
     from ..symstr import SStr
-    f = src.func(M + ':ArMember.from_file')
-    rep.saw_func(f)
-    fnode = nfunc(f).node
-    # statements that compute the local assigned to the name attribute
-    stores = [st for st in ast.walk(fnode) if isinstance(st, ast.Assign) and len(st.targets) == 1 and isinstance(st.targets[0], ast.Attribute)
-              and st.targets[0].attr.endswith('__name')]
-    if len(stores) != 1:
-        raise AnalysisError('%s: the store of the member name was not found' % f.site)
-    body = fnode.body
-    upto = next(i for i, st in enumerate(body) if stores[0] in list(ast.walk(st)))
-    bufname = None
-    for st in body[:upto + 1]:
-        for n_ in ast.walk(st):
-            if isinstance(n_, ast.Subscript) and isinstance(n_.slice, ast.Slice) and norm(n_.slice.lower or ast.Constant(value=0)) == '0' and norm(n_.slice.upper) == '16':
-                bufname = norm(n_.value)
-    if bufname is None:
-        raise AnalysisError('%s: the name field buf[0:16] is not read' % f.site)
-    stmts = [st for st in body[:upto + 1] if any(isinstance(n_, ast.Name) and n_.id in ('name',) for n_ in ast.walk(st)) or stores[0] in list(ast.walk(st))]
-    n = 0
+    if hdr is None:
+        raise AnalysisError('the header paths of from_file are not available (C06.R3 did not complete)')
+    f, name_paths, cut_of = hdr['func'], hdr['name_paths'], hdr['cut_of']
+
+    class Sub(ast.NodeTransformer):
+        def visit_Subscript(self, n_):
+            if cut_of(n_) == (0, 16):
+                return ast.copy_location(ast.Name(id='__namefield', ctx=ast.Load()), n_)
+            return self.generic_visit(n_)
+
+    def mentions_field(e):
+        return any(isinstance(x, ast.Subscript) and cut_of(x) == (0, 16) for x in ast.walk(e))
+    usable = [(conds, e) for conds, e in name_paths if e is not None and mentions_field(e)]
+    if not usable:
+        raise AnalysisError('%s: no path stores a name computed from the name field [0:16]' % f.site)
+    prepared = [([(ast.fix_missing_locations(Sub().visit(core_clone(t_))), pol) for t_, pol in conds if mentions_field(t_)],
+                 ast.fix_missing_locations(Sub().visit(core_clone(e)))) for conds, e in usable]
     for label in ('GNU layout: name, slash, padding', 'BSD layout: name, padding'):
         bad = None
         cases = 0
@@ -873,34 +875,28 @@ def r10_member_names(rep, src):
         def run(at, label=label):
             fld = (at['N'] + '/' + at['P']) if 'GNU' in label else (at['B'] + at['P'])
             wnt = at['N'] if 'GNU' in label else at['B']
-            heap = H.Heap(src.mod(M), hooks={'.decode': lambda it_, a, k: a[0]})
-            heap.symbolic_strings = True
-            heap.bytes_mode = True
-            it = H.Interp(heap)
-            me = heap.alloc('ArMember', {})
-            env = {'f': me, 'encoding': 'utf-8', 'errors': None, '__namefield': fld}
-
-            class Sub(ast.NodeTransformer):
-                def visit_Subscript(self, n_):
-                    if norm(n_.value) == bufname and isinstance(n_.slice, ast.Slice) and n_.slice.upper is not None and norm(n_.slice.upper) == '16':
-                        return ast.copy_location(ast.Name(id='__namefield', ctx=ast.Load()), n_)
-                    return self.generic_visit(n_)
-            from ..core import clone as _clone
-            for st in stmts:
-                it.exec(ast.fix_missing_locations(Sub().visit(_clone(st))), env, 'ArMember')
-            got = heap.objs[me.name].get('_ArMember__name')
-            return symstr.lift(got), wnt
-        for langs, (got, wnt) in symstr.explore(atoms, run, depth=8):
+            results = []
+            for conds, e in prepared:
+                heap = H.Heap(src.mod(M), hooks={'.decode': lambda it_, a, k: a[0], 'sys.getfilesystemencoding': lambda it_, a, k: 'utf-8'})
+                heap.symbolic_strings = True
+                heap.bytes_mode = True
+                it = H.Interp(heap)
+                env = {'encoding': 'utf-8', 'errors': None, '__namefield': fld}
+                if all(it.truth(it.ev(t_, env, 'ArMember')) == pol for t_, pol in conds):
+                    results.append(symstr.lift(it.ev(e, env, 'ArMember')))
+            return results, wnt
+        for langs, (results, wnt) in symstr.explore(atoms, run, depth=8):
             cases += 1
             empty = {k for k, l_ in langs.items() if l_.not_subset_witness(symstr.lit_lang('')) is None}
             nz = lambda s_: SStr([p_ for p_ in s_.parts if isinstance(p_, str) or getattr(p_, 'name', None) not in empty])
-            if not nz(got).same(nz(wnt)):
-                wit = {k: l_.witness() for k, l_ in langs.items()}
-                bad = bad or 'for the name field %r the member is called %r instead of %r' % (
-                    ''.join(wit.get(getattr(p_, 'name', ''), p_) if not isinstance(p_, str) else p_ for p_ in ((symstr.atom('N', langs['N']) + '/' + symstr.atom('P', langs['P'])) if 'GNU' in label
-                                                                                                             else (symstr.atom('B', langs['B']) + symstr.atom('P', langs['P']))).parts),
-                    got, wnt)
-        n += 1
+            wit = {k: l_.witness() for k, l_ in langs.items()}
+            shown = (wit.get('N', '') + '/' + wit.get('P', '')) if 'GNU' in label else (wit.get('B', '') + wit.get('P', ''))
+            if not results:
+                bad = bad or 'for the name field %r no path stores a name' % (shown,)
+            for r_ in results:
+                # (several paths may store the name: they differ in conditions that do not concern the name field)
+                if not nz(r_).same(nz(wnt)):
+                    bad = bad or 'for the name field %r the member is called %r instead of %r' % (shown, r_, wnt)
         if bad:
             rep.fail('C06.R10', f.site, 'member name: ' + label, bad + ': blanks that belong to the name are stripped (two members whose names differ only in such blanks collapse into one)', where=f.where)
         elif not cases:
@@ -925,13 +921,13 @@ def check(src, rep, tier):
     rep.need('C06.R6', 7)
     rep.guard('C06.R1', r1_bounded_reads, src)
     rep.guard('C06.R2', r2_position_discipline, src)
-    rep.guard('C06.R3', r3_header_table, src)
+    hdr = rep.guard('C06.R3', r3_header_table, src)
     rep.guard('C06.R4', r4_padding, src)
     rep.guard('C06.R5', r5_whence, src)
     rep.need('C06.R9', 1)
     rep.guard('C06.R9', r9_readlines_hint, src)
     rep.need('C06.R10', 2)
-    rep.guard('C06.R10', r10_member_names, src)
+    rep.guard('C06.R10', r10_member_names, src, hdr)
     rep.need('C06.R8', 1)
     rep.guard('C06.R8', r8_iteration, src)
     rep.need('C06.R7', 7)
